@@ -367,9 +367,11 @@ def run(ctx):
             hist['identical_1x'] += 1
         bad = []
         for s in r['r']:
-            # noise floor measured on the whole corpus: text and curve edges move by one f32 ulp through write_num, which changes
-            # at most 31 edge pixels by at most 36 levels; allowed: <= 40 pixels beyond +-2, none beyond 72
-            if s['big12'] > 0 or s['n12'] > 40:
+            # noise floor measured on the whole corpus and on 4500 generated documents: edges move by one f32 ulp through
+            # write_num; that changes at most 31 scattered edge pixels by at most 36 levels, or - when an edge lies on a
+            # sub-scanline boundary of the 4x anti-aliasing - one row of edge pixels by 64 levels (41..52 pixels seen on 100
+            # pixel wide canvases).  Allowed: none beyond 72 levels and at most max(40, canvas width) pixels beyond +-2.
+            if s['big12'] > 0 or s['n12'] > max(40, s['w']):
                 bad.append("at %dx %d pixels differ by more than 2 (max %d, %d by more than 72) between T and parse(write(T))"
                            % (s['scale'], s['n12'], s['max12'], s['big12']))
             if s['n23'] > 0:
@@ -388,7 +390,7 @@ def run(ctx):
             lab = "%s [%s]" % (labels[k], c07.wopts_str(w))
             d = jload(do)
             r = jload(outs[ci])
-            first_bad = any(s['big12'] > 0 or s['n12'] > 40 for s in r.get('r', []))
+            first_bad = any(s['big12'] > 0 or s['n12'] > max(40, s['w']) for s in r.get('r', []))
             klasses = tree_classes(d, w, first_bad) if 'root' in d else []
             if kind == 'reparse':
                 strs = c07.tree_strings(d) + [w.get('prefix') or ''] if 'root' in d else []
